@@ -26,6 +26,14 @@ def the_world():
     e2[0][0] += 3
     w["reads"].append(W.read_of("eqspan", "chr1", e1))
     w["reads"].append(W.read_of("eqspan", "chr1", e2, secondary=True))
+    # the same with BOTH records consistent with one isoform (the secondary record has one junction 2 bp off, within delta): the two
+    # are "duplicates" for the resolver, which of them is reported must not depend on the files they lie in
+    e3, e4 = W.exons(1000, [0, 1, 2, 3, 4]), W.exons(1000, [0, 1, 2, 3, 4])
+    e3[0][0] += 7
+    e4[0][0] += 7
+    e4[2][0] += 2
+    w["reads"].append(W.read_of("eqsame", "chr1", e3))
+    w["reads"].append(W.read_of("eqsame", "chr1", e4, secondary=True))
     # an unmapped record that carries the position of its mate / of a discarded alignment (flag 4 with RNAME and POS), starting where
     # records of other reads start
     w["reads"].append({"name": "placed_unm", "unmapped": True, "chr": "chr1", "pos": 1001})
